@@ -258,7 +258,10 @@ pub fn gen_sized_ty(ch: &mut Ch, tp: &TyProfile, structs: &[StructDef], nest_ok:
         0 => gen_leaf(ch, tp),
         1 => {
             let e = gen_sized_ty(ch, tp, structs, nest_ok, depth + 1);
-            Ty::A(Box::new(e), ch.range(1, tp.max_array.max(1)))
+            // keep every type below 1 MiB: u32 layout arithmetic (naga's and the model's) stays exact
+            let stride = wgsl_stride(&e, structs).max(1);
+            let cap = ((1u32 << 20) / stride).max(1);
+            Ty::A(Box::new(e), ch.range(1, tp.max_array.max(1)).min(cap))
         }
         _ => Ty::St(*ch.pick(nest_ok)),
     }
